@@ -223,10 +223,20 @@ pub fn gen_plumb(seed: u64, tag: &str, thorough: bool) {
                 let mut c = jbonsai::engine::Condition::default();
                 set_owned(&mut c, k / 4);
                 if c.load_model(&e.voices).is_ok() {
+                    // … then the settings the voice defaults overwrite, as the caller wants them; `Engine::new` must take the
+                    // condition as it is (seeded change C20i: `Engine::new` reloading the defaults when the rate differs)
+                    let ns = e.voices.global_metadata().num_streams;
+                    c.set_sampling_frequency(get("sampling_frequency").parse().unwrap());
+                    c.set_fperiod(get("fperiod").parse().unwrap());
+                    c.set_alpha(f(&get("alpha")));
+                    for i in 0..ns {
+                        c.set_msd_threshold(i, f(&get(&format!("msd_threshold[{i}]"))));
+                        c.set_gv_weight(i, f(&get(&format!("gv_weight[{i}]"))));
+                    }
                     let e2 = Engine::new(e.voices.clone(), c);
                     // the volume goes through dB -> linear -> dB once more on this route: compare it by value
                     let got = cond_snapshot(&e2);
-                    let exact = ["alignment", "speed", "beta", "half_tone"];
+                    let exact = ["alignment", "speed", "beta", "half_tone", "sampling_frequency", "fperiod", "alpha", "msd_threshold", "gv_weight"];
                     shist_report(&want, &got, &exact, "Condition::default();set caller settings;load_model;Engine::new");
                     let (v0, v1) = (f(&get("volume")), e2.condition.get_volume());
                     if !((v0 - v1).abs() <= 1e-9 * v0.abs().max(1.0)) {
